@@ -175,8 +175,16 @@ def run_tlc(cwd, module, cfg, workers, timeout, env=None, cont=False, tlines=Non
 def run_tlc_retry(*a, **kw):
     """TLC occasionally ends at once with a single state and exit code 0 when started right after another instance; retry once"""
     r = run_tlc(*a, **kw)
-    if r["rc"] == 0 and r["generated"] < 2 and not r["errors"]:
-        log("[tlc] suspicious empty run, retrying")
+    for attempt in range(3):
+        if not (r["rc"] == 0 and r["generated"] < 2 and not r["errors"]):
+            break
+        log("[tlc] suspicious empty run, retrying: %s" % " | ".join(r["log"][-6:])[:600])
+        try:
+            with open(os.path.join(a[0], "empty_runs.log"), "a") as f:
+                f.write("\n".join(r["log"]) + "\n=====\n")
+        except Exception:
+            pass
+        time.sleep(3 * (attempt + 1))
         r = run_tlc(*a, **kw)
     return r
 
